@@ -13,7 +13,19 @@ outp = os.path.join(V, ".work", "mutregress.json"); os.makedirs(os.path.dirname(
 for d in ids:
     m = json.load(open(os.path.join(V, "seeded", d, "meta.json")))
     pid = m.get("checked_by", m["breaks_property"])
-    rc, o = sh("git apply %s" % os.path.join(V, "seeded", d, "patch.diff"), "/repo"); assert rc == 0, (d, o)
+    if m.get("obsolete"):
+        res[d] = dict(prop=pid, obsolete=True, violation=None, failing_input=None, n=0, wall=0); print(d, "obsolete (equivalent since a later fix)", flush=True); continue
+    rc, o = sh("git apply %s" % os.path.join(V, "seeded", d, "patch.diff"), "/repo")
+    if rc != 0:
+        # the patched lines were changed by a later fix: commit in /repo; try a three-way merge, otherwise record the change as stale
+        sh("git checkout -- .", "/repo")
+        rc, o = sh("git apply --3way %s" % os.path.join(V, "seeded", d, "patch.diff"), "/repo")
+        if rc != 0 or "conflict" in o.lower():
+            sh("git reset -q --hard HEAD", "/repo")
+            res[d] = dict(prop=pid, stale=True, violation=None, failing_input=None, n=0, wall=0)
+            print(d, "STALE (no longer applies to the repaired tree)", flush=True)
+            json.dump(res, open(outp, "w"), indent=1); continue
+        sh("git reset -q", "/repo")
     t0 = time.time()
     try:
         rc, o = sh("python3 tools/check.py %s --tier quick 2>&1 | grep -v KNOWN-FINDING | tail -6" % pid, V)
